@@ -41,6 +41,10 @@ CHECKS = {
     'C13': ('exploration', 'seeded search over step chains with random arguments x crash points (checkpoint through deepcopy / '
             'pickle / YAML, abandon, restore in a fresh loop); recorded arguments and outcome compared with a reference model of '
             'the step commands', '5 C13', 'deterministic simulation with crash/restart injection, reference-model oracle'),
+    'C14': ('exploration', 'seeded histories of persister operations over several live processes and tags drive InMemoryPersister, '
+            'PicklePersister (real files) and a dictionary model while the processes keep running on the simulated loop; '
+            'separate fault configuration with injected open() errors and torn writes under a relaxed, narrow oracle', '5 C14',
+            'deterministic simulation: seeded operation histories against a reference model, disk-fault injection, restart'),
 }
 
 NOT_APPLICABLE = [
@@ -55,7 +59,6 @@ NOT_APPLICABLE = [
 
 PENDING = {
     'C10': 'check under construction in this session',
-    'C14': 'check under construction in this session',
     'C16': 'check under construction in this session',
     'C17': 'check under construction in this session',
     'C18': 'check under construction in this session',
